@@ -16,6 +16,12 @@ R = {
  "T14": ("int loop counters -> Eigen::Index (trajectory header)", [(r"for \(int ([a-z]\w*) = ", r"for (Eigen::Index \1 = ", 0)], ("SplineTrajectory.hpp",)),
  "T15": ("braces around single return / continue / break after if", [(r"^(\s+)(if \([^\n]*\))\n(\s+)(return[^\n;]*;|continue;|break;)\n", r"\1\2\n\1{\n\3\4\n\1}\n", re.M)], HDRS),
 }
+# T16: assert() statements added after a few anchors (analysed without NDEBUG the macro expands to a conditional call of
+# __assert_fail with __PRETTY_FUNCTION__)
+ASSERT_ANCHORS = {"SplineTrajectory.hpp": ["            const int n = num_segments_;\n", "            num_segments_ = static_cast<int>(time_segments_.size());\n"],
+                  "SplineOptimizer.hpp": ["            Workspace& ws_ref = (ws != nullptr) ? *ws : *getOrCreateInternalWorkspace();\n"]}
+R["T16"] = ("assert() statements added", [], HDRS)
+
 CHECKS = [l.strip() for l in open(os.path.join(VERIF, "tools", "ready.txt")) if l.strip() and not l.startswith("#")]
 bad = 0
 for t in (sys.argv[1:] or sorted(R)):
@@ -30,6 +36,11 @@ for t in (sys.argv[1:] or sorted(R)):
             for pat, rep, fl in rules:
                 s, k = re.subn(pat, rep, s, flags=fl)
                 n += k
+            if t == "T16":
+                for a in ASSERT_ANCHORS.get(h, []):
+                    n += s.count(a)
+                    s = s.replace(a, a + "            assert(num_segments_ >= 0);\n")
+                s = s.replace("#include <vector>", "#include <vector>\n#include <cassert>", 1)
             open(p, "w").write(s)
         r = subprocess.run(["clang++", "-std=gnu++17", "-fsyntax-only", "-I" + os.path.join(d, "include"), "-I/usr/include/eigen3", os.path.join(VERIF, "wit", "wit_quick.cpp")], capture_output=True, text=True)
         if r.returncode != 0:
